@@ -22,6 +22,17 @@ theorem merge_lookup (d : Nat) (ts : List (List Tr)) (hs : AllSorted ts) (n : Na
     find n (mergeTrees (d + 1) ts) = mergeNodes (mergeTrees d) (row n ts) :=
   find_mergeTrees hs n
 
+/-- (M1') **Whole paths.**  For input trees sorted at every depth (`AllDeepSorted`: the tree invariant, at every
+level), the node found at ANY path `p` of the merged tree (`lookupPath`: descend through directories) is what the
+specification `specLookup` computes from the inputs alone, level by level: at each component take the nodes with that
+name — one per input (sub)tree that has one —; none ⇒ the path does not exist (union of paths); the `cmp`-maximal one
+(last of equal maxima) wins; to continue below it the winner must be a directory (a file winning over directories hides
+their contents), and the walk continues in the subtrees of ALL directories among them; at the last component the result
+is `merge_nodes` of the nodes found.  `d` is the recursion depth of `merge_trees`, any value ≥ the path length. -/
+theorem merge_lookup_path (p : List Nat) (d : Nat) (ts : List (List Tr)) (hs : AllDeepSorted ts) (hd : p.length ≤ d) :
+    lookupPath (mergeTrees d ts) p = specLookup d ts p :=
+  lookupPath_mergeTrees p d ts hs hd
+
 /-- (M2) the merged tree is sorted by name without duplicates (so (M1) applies again one level down) -/
 theorem merge_sorted (d : Nat) (ts : List (List Tr)) (hs : AllSorted ts) : Sorted (mergeTrees d ts) :=
   mergeTrees_sorted hs
@@ -49,6 +60,22 @@ theorem merge_names_union (d : Nat) (ts : List (List Tr)) (hs : AllSorted ts) (n
     cases hr : row n ts with
     | nil => rw [hr] at this; simp at this
     | cons a l => simp [mergeNodes]
+
+/-- non-vacuity of (M1'): directory `1` in both inputs (the newer one wins the node, both subtrees are merged), below it
+`5` is a file in one and a directory in the other (the newer file wins and hides `5/9`), `7` exists only in the older -/
+example :
+    let a : List Tr := [.node 1 10 true 100 [.node 5 3 true 0 [.node 9 1 false 0 []], .node 7 1 false 77 []]]
+    let b : List Tr := [.node 1 20 true 200 [.node 5 8 false 55 []]]
+    AllDeepSorted [a, b] ∧
+    (lookupPath (mergeTrees 3 [a, b]) [1]).map (·.tag) = some 200 ∧
+    (lookupPath (mergeTrees 3 [a, b]) [1, 5]).map (·.tag) = some 55 ∧
+    (lookupPath (mergeTrees 3 [a, b]) [1, 7]).map (·.tag) = some 77 ∧
+    lookupPath (mergeTrees 3 [a, b]) [1, 5, 9] = none ∧
+    (specLookup 3 [a, b] [1, 7]).map (·.tag) = some 77 := by
+  refine ⟨?_, by decide, by decide, by decide, by decide, by decide⟩
+  intro t ht
+  simp only [List.mem_cons, List.not_mem_nil, or_false] at ht
+  rcases ht with rfl | rfl <;> simp [Sorted, DeepSortedL, Tr.DeepSorted, Tr.name]
 
 /-! ## rewrite: removes exactly the excluded paths and changes nothing else -/
 
